@@ -262,14 +262,15 @@ static var Range_Iter_Init(var self) {
   return i;
 }
 
+static size_t Range_Len(var self);
+
 static var Range_Iter_Last(var self) {
   struct Range* r = self;
   struct Int* i = r->value;
-  if (r->step == 0) { return Terminal; }
-  if (r->step  > 0) { i->val = r->stop-1; }
-  if (r->step  < 0) { i->val = r->start; }
-  if (r->step  > 0 and i->val < r->start) { return Terminal; }
-  if (r->step  < 0 and i->val >= r->stop) { return Terminal; }
+  int64_t n = (int64_t)Range_Len(r);
+  if (n == 0) { return Terminal; }
+  if (r->step  > 0) { i->val = r->start  + (n-1) * r->step; }
+  if (r->step  < 0) { i->val = r->stop-1 + (n-1) * r->step; }
   return i;
 }
 
@@ -300,6 +301,7 @@ static var Range_Iter_Type(var self) {
 static size_t Range_Len(var self) {
   struct Range* r = self;
   if (r->step == 0) { return 0; }
+  if (r->stop <= r->start) { return 0; }
   if (r->step  > 0) { return ((r->stop-1) - r->start) /  r->step + 1; }
   if (r->step  < 0) { return ((r->stop-1) - r->start) / -r->step + 1; }
   return 0;
@@ -310,11 +312,12 @@ static var Range_Get(var self, var key) {
   struct Int* x = r->value;
   
   int64_t i = c_int(key);
-  i = i < 0 ? Range_Len(r)+i : i;
+  i = i < 0 ? (int64_t)Range_Len(r)+i : i;
   
-  if (r->step == 0) {
-    x->val = 0;
-    return x;
+  if (i < 0 or i >= (int64_t)Range_Len(r)) {
+    return throw(IndexOutOfBoundsError, 
+      "Index '%i' out of bounds for Range of start %i, stop %i and step %i.", 
+      key, $I(r->start), $I(r->stop), $I(r->step));
   }
   
   if (r->step  > 0 and (r->start + r->step * i) < r->stop) {
